@@ -108,7 +108,7 @@ def build(spec):
 def main(tier, seed):
     t0 = time.time()
     specs = enumerate_specs(tier)
-    results = runner.run_pool(__name__, specs, tier, seed)
+    results = runner.run_pool(__name__, specs, tier, seed, chain=4)
     rc = None
     extra_lines = []
     if tier != "quick":
